@@ -186,13 +186,13 @@ def iv_abs(a):
 
 
 def iv_min(a, b):
-    lo, ls = (a.lo, a.ls) if a.lo < b.lo else ((b.lo, b.ls) if b.lo < a.lo else (a.lo, a.ls or b.ls))
+    lo, ls = (a.lo, a.ls) if a.lo < b.lo else ((b.lo, b.ls) if b.lo < a.lo else (a.lo, a.ls and b.ls))
     hi, hs = (a.hi, a.hs) if a.hi < b.hi else ((b.hi, b.hs) if b.hi < a.hi else (a.hi, a.hs or b.hs))
     return Iv(lo, hi, ls, hs)
 
 
 def iv_max(a, b):
-    lo, ls = (a.lo, a.ls) if a.lo > b.lo else ((b.lo, b.ls) if b.lo > a.lo else (a.lo, a.ls and b.ls))
+    lo, ls = (a.lo, a.ls) if a.lo > b.lo else ((b.lo, b.ls) if b.lo > a.lo else (a.lo, a.ls or b.ls))
     hi, hs = (a.hi, a.hs) if a.hi > b.hi else ((b.hi, b.hs) if b.hi > a.hi else (a.hi, a.hs and b.hs))
     return Iv(lo, hi, ls, hs)
 
@@ -278,11 +278,11 @@ class Bounds:
             c, t, f = a
             out = None
             for pol, v in ((True, t), (False, f)):
-                e2 = refine(self, c, pol)
-                if e2.infeasible:
-                    continue
-                r = self.sub(e2).iv(v)
-                out = r if out is None else join(out, r)
+                for e2 in refine_dnf(self, c, pol):
+                    if e2.infeasible:
+                        continue
+                    r = self.sub(e2).iv(v)
+                    out = r if out is None else join(out, r)
             return out if out is not None else Iv(1.0, -1.0)
         if op == "switch":
             out = None
@@ -313,7 +313,10 @@ class Bounds:
             return tot
         if op == "nf.const":
             return point(float(Fraction(a[0])))
-        self.unknown_ops.add(op)
+        # Opaque *values* (collaborator results, raveled inputs, attributes) are free reals: TOP is exact.
+        # Only an unmodelled numeric primitive makes a derived bound unreliable.
+        if op.startswith(("np.", "linalg.", "func.", "flow.")):
+            self.unknown_ops.add(op)
         return TOP
 
     # -------------------------------------------------------- symbolic bounds
@@ -393,10 +396,41 @@ class Bounds:
 
 
 def refine(b: Bounds, cond, polarity: bool) -> Env:
-    """Environment in which ``cond`` has truth value ``polarity``."""
+    """Environment in which ``cond`` has truth value ``polarity`` (conjunctive part only)."""
     env = Env(b.env)
     _refine(b, env, cond, polarity)
     return env
+
+
+def refine_dnf(b: Bounds, cond, polarity: bool, limit=8) -> list:
+    """Environments whose union covers ``cond == polarity`` (disjunctions are split)."""
+    envs = [Env(b.env)]
+    _refine_dnf(b, envs, cond, polarity, limit)
+    return envs
+
+
+def _refine_dnf(b, envs, cond, pol, limit):
+    if isinstance(cond, T.Term):
+        op, a = cond.op, cond.args
+        if op == "not":
+            return _refine_dnf(b, envs, a[0], not pol, limit)
+        is_and = op in ("and", "np.logical_and")
+        is_or = op in ("or", "np.logical_or")
+        if (is_and and pol) or (is_or and not pol):
+            _refine_dnf(b, envs, a[0], pol, limit)
+            _refine_dnf(b, envs, a[1], pol, limit)
+            return
+        if (is_and and not pol) or (is_or and pol):
+            if 2 * len(envs) > limit:
+                return  # keep the over-approximation
+            left = [Env(e) for e in envs]
+            right = [Env(e) for e in envs]
+            _refine_dnf(b, left, a[0], pol, limit)
+            _refine_dnf(b, right, a[1], pol, limit)
+            envs[:] = left + right
+            return
+    for e in envs:
+        _refine(Bounds(e), e, cond, pol)
 
 
 _FLIP = {"lt": "gt", "le": "ge", "gt": "lt", "ge": "le", "eq": "eq", "ne": "ne"}
